@@ -125,6 +125,10 @@ def stream_bool(ctx, grammars, maxlen, hashseeds):
         strs = [list(x) for x in M.strings(g["nT"], maxlen)]
         if len(strs) > 30:
             strs = strs[:10] + ctx.rng.sample(strs[10:], 20)
+        for _ in range(6):    # sentences of the language (random derivations), so that long strings are not all rejected
+            snt = M.random_sentence(ctx.rng, g, maxdepth=ctx.rng.randint(2, 5), maxlen=6)
+            if snt is not None and len(snt) <= 6 and snt not in strs:
+                strs.append(snt)
         for xs in strs:
             tab.want(gid, xs)
         plan.append((gid, g, strs))
@@ -254,6 +258,8 @@ def run(ctx):
     stream_exact(ctx, gs, 3 if quick else 4, seeds)
     bg = [M.rand_grammar(ctx.rng, boolean=True, pnull=0.2, punary=0.25) for _ in range(nG)] + [M.rand_leftcorner_grammar(ctx.rng) for _ in range(nG // 2)]
     stream_bool(ctx, bg, 3, seeds[:2])
+    # mutual left recursion with further left corners: strings of length 4 are needed to re-enter the cycle at another member
+    stream_bool(ctx, [M.rand_mutual_leftrec_grammar(ctx.rng) for _ in range(nG // 2)], 4, seeds[:2])
     stream_float(ctx, 25 if quick else 300, 3)
 
 
